@@ -42,6 +42,8 @@ mutual
           | .ok v => pure (some (← eParseScalar v))
           | .error _ => pure none
         return .leaf name conv d restF
+      | "hidden" =>
+        return .hidden name (← eParseScalar (← obj f "default")) restF
       | "sub" =>
         let d := (← optStr f "default").map chars
         let alts ← sgParseAlts (← arr f "alts").toList
@@ -70,7 +72,7 @@ def sgObj (l : List (Str × Json)) : Json := Json.mkObj (l.map (fun p => (unchar
 
 def sgOutJson : Out → Json
   | .ok r => Json.mkObj [("o", "ok"),
-      ("leaves", sgObj (r.leaves.map (fun p => (p.1, eValJson p.2)))),
+      ("leaves", sgObj ((r.leaves ++ r.hidden).map (fun p => (p.1, eValJson p.2)))),
       ("classes", sgObj (r.classes.map (fun p => (p.1, jstr p.2)))),
       ("subgroups", sgObj (r.subgroups.map (fun p => (p.1, eValJson p.2))))]
   | .exit2 => Json.mkObj [("o", "exit"), ("code", Json.num 2)]
